@@ -352,4 +352,16 @@ theorem all_block_lines_ordered : type_of% @GM.Props.Wf0.all_lines_ordered := @G
     ThematicBreak nodes have an empty line list (`Lines().Len() == 0`): no block parser ever appends to them. -/
 theorem container_nodes_no_lines : type_of% @GM.Props.Wf0.container_nodes_no_lines := @GM.Props.Wf0.container_nodes_no_lines
 
+/-- (re-export of `GM.Props.Wf0.list_shape`) **`list_shape`, every source**: in the final store of the block phase a child node is a ListItem exactly when its
+    parent is a List (children lists; `st.nodes.getD i default` is node `i`). "Children of a List are ListItems" is the
+    list invariant of the no-panic proof; "a ListItem only ever hangs under a List" holds because the one call that
+    attaches the node a parser has built (`parent.AppendChild`, parser.go:1003) attaches a FRESH node of the parser's
+    kind, and listItemParser.Open answers a node only when `parent` is a List (list_item.go:25-28). -/
+theorem list_shape : type_of% @GM.Props.Wf0.list_shape := @GM.Props.Wf0.list_shape
+
+/-- (re-export of `GM.Props.Wf0.store_hyps_core_run`) **the four store facts the end-to-end proof of C05 (`wfAst`) takes as hypotheses (`GM.E2E.StoreHypsCore`: `lines`,
+    `ord`, `noLines`, `listShape`), for the final store of `run`, every source** — stated here without importing the
+    end-to-end files; `OrdFrom` is `GM.Blocks.OrdFrom` (the recursion of `GM.E2E.ordFrom`). -/
+theorem store_hyps_core_run : type_of% @GM.Props.Wf0.store_hyps_core_run := @GM.Props.Wf0.store_hyps_core_run
+
 end GM.Props.C05
